@@ -858,6 +858,10 @@ bool BarnettSmartVTMF_dlog::OR_Verify
 		// check the size of $c_1$ and $c_2$
 		if ((mpz_cmpabs(c_1, q) >= 0L) || (mpz_cmpabs(c_2, q) >= 0L))
 			throw false;
+
+		// verify the in-group properties of $y_1$ and $y_2$
+		if (!CheckElement(y_1) || !CheckElement(y_2))
+			throw false;
 		
 		// verify ($y_1 = g_1^\alpha \vee y_2 = g_2^\beta$) [CaS97]
 		mpz_powm(t_1, y_1, c_1, p);
